@@ -79,10 +79,14 @@ func TestVerif_C16_ApiTokenSequences(t *testing.T) {
 		n++
 		tag := fmt.Sprintf("c16a-%d-%d", n, time.Now().UnixNano()%100000)
 		g1, g2 := tag+"-a", tag+"-b"
+		if rapid.Bool().Draw(t, "secondGroupIsSubgroup") {
+			g2 = g1 + "/sub" // listings and scopes then have an ancestor to be confused with
+		}
 		for _, g := range []string{g1, g2} {
 			rig.writeGroup(g, map[string]any{"users": map[string]any{"adm": map[string]any{"password": "admpw", "permissions": "admin"}}})
-			defer os.Remove(filepath.Join(rig.groups, g+".json"))
+			defer os.Remove(filepath.Join(rig.groups, filepath.FromSlash(g)+".json"))
 		}
+		defer os.Remove(filepath.Join(rig.groups, g1))
 		auth := basic("root", "rootpw-MARKSECRETroot")
 		model := map[string]c16Tok{}
 		defer func() { // leave no token of this case behind
@@ -97,7 +101,11 @@ func TestVerif_C16_ApiTokenSequences(t *testing.T) {
 		body := func(k int) ([]byte, c16Tok) {
 			perms := [][]string{{"present"}, {"present", "message"}, {"op"}, {}}[k%4]
 			user := fmt.Sprintf("user%s", strings.Repeat("x", k%23)) // sizes differ between successive versions
-			b, _ := json.Marshal(map[string]any{"permissions": perms, "username": user, "expires": "2040-01-01T00:00:00Z"})
+			v := map[string]any{"permissions": perms, "username": user, "expires": "2040-01-01T00:00:00Z"}
+			if k%3 == 0 {
+				v["includeSubgroups"] = true
+			}
+			b, _ := json.Marshal(v)
 			return b, c16Tok{"", perms, user}
 		}
 		short := func(nm string) string { return strings.TrimPrefix(nm, tag) }
